@@ -160,14 +160,22 @@ func genRepo(r *gen.Rand, idx int, manyBranches bool) repoSpec {
 		// make sure a document sits on a high branch
 		rs.Docs[0].Branches = []string{rs.Branches[len(rs.Branches)-1], rs.Branches[1]}
 	}
-	rs.ViaBuilder = r.Chance(1, 5) && len(rs.SubRepos) == 0
+	rs.ViaBuilder = r.Chance(1, 8) && len(rs.SubRepos) == 0
 	return rs
 }
 
+// genCase: case i of the run. The first cases cover every class whatever the seed (the quick tier runs only a few):
+// 0 several simple shards, 1 a compound input with a tombstoned member, 2 a repository with more than 32 branches.
 func genCase(r *gen.Rand, i int) caseSpec {
 	cs := caseSpec{Class: "simple"}
 	n := r.Range(1, 5)
-	many := i%9 == 8
+	many := i%9 == 8 || i == 2
+	if i == 0 {
+		n = r.Range(3, 4)
+	}
+	if i == 1 {
+		n = 4
+	}
 	for k := 0; k < n; k++ {
 		cs.Repos = append(cs.Repos, genRepo(r, k, many && k == 0))
 	}
@@ -175,13 +183,23 @@ func genCase(r *gen.Rand, i int) caseSpec {
 		cs.Class = "many-branches"
 	}
 	// sometimes pre-merge a group into a compound input and tombstone members
-	if n >= 3 && r.Chance(1, 3) {
+	if n >= 3 && (r.Chance(1, 3) || i == 1) && !many {
 		cs.Compound = [][]int{{0, 1, 2}}
 		cs.Class = "compound-input"
 		for _, k := range []int{0, 1, 2} {
 			if r.Chance(1, 3) {
 				cs.Repos[k].Tomb = true
 			}
+		}
+		if i == 1 {
+			// make sure the tombstone path is exercised: a member with documents is tombstoned, another one stays
+			for len(cs.Repos[1].Docs) == 0 {
+				cs.Repos[1].Docs = append(cs.Repos[1].Docs, genDoc(r, 0, cs.Repos[1].Branches, cs.Repos[1].SubRepos))
+			}
+			for len(cs.Repos[0].Docs) == 0 {
+				cs.Repos[0].Docs = append(cs.Repos[0].Docs, genDoc(r, 0, cs.Repos[0].Branches, cs.Repos[0].SubRepos))
+			}
+			cs.Repos[1].Tomb, cs.Repos[0].Tomb = true, false
 		}
 	}
 	// the order of the inputs on the call: merge must not depend on it (beyond ties in priority)
@@ -974,7 +992,7 @@ func main() {
 		}
 	}
 	r := gen.NewRand(f.Seed)
-	n := f.N(24, 220)
+	n := f.N(9, 220)
 	for i := 0; i < n; i++ {
 		run(genCase(r, i), id)
 		id++
